@@ -45,7 +45,7 @@ DIFF_ATTRS = {"target_temperature_resolution", "supported_power_controls"}
 @st.composite
 def _common(draw):
     n_ac = draw(st.integers(1, 3))
-    nz = draw(st.integers(0, 8))
+    nz = draw(st.one_of(st.integers(0, 8), st.integers(9, 16), st.just(16)))   # up to the full 16 zones (numbers 0..15)
     cuts = sorted(draw(st.lists(st.integers(0, nz), min_size=n_ac - 1, max_size=n_ac - 1)))
     cuts = [0] + cuts + [nz]
     acs = []
@@ -196,6 +196,11 @@ def run_history(case, stats: Stats | None):
             for n in a4:
                 for k in a4[n]:
                     if k in DIFF_ATTRS:
+                        continue
+                    if k == "zones":
+                        # the order of an AC's zone list is not specified (AT4 builds it from a set): compare as sets
+                        if sorted(a4[n][k]) != sorted(a5[n][k]):
+                            bad("ac-attr:zones", f"{when}: AC {n}.zones: AT4 {sorted(a4[n][k])} != AT5 {sorted(a5[n][k])} for equivalent consoles")
                         continue
                     if a4[n][k] != a5[n][k]:
                         bad(f"ac-attr:{k}", f"{when}: AC {n}.{k}: AT4 {a4[n][k]!r} != AT5 {a5[n][k]!r} for equivalent consoles")
